@@ -4,7 +4,9 @@ import (
 	"fmt"
 	"math"
 	"math/big"
+	"os"
 	"strings"
+	"sync"
 
 	"github.com/cockroachdb/apd/v3"
 
@@ -230,6 +232,9 @@ func transCase(t *mon.T, which string, op string, c dec.Ctx, x, y dec.D) {
 		return
 	}
 	T := tr.T
+	if enclDump != nil {
+		enclWrite(op, x, y, T)
+	}
 	// early-overflow known finding of Exp
 	expEarly := func() string {
 		if op != "exp" {
@@ -619,4 +624,36 @@ func runC12(r *mon.Run) {
 	for _, k := range []string{"op/exp", "op/ln", "op/log10", "op/pow", "class/exact-by-definition", "class/overflow-reported", "class/underflow-reported", "err/0-0.5ulp", "exp-long-argument", "range-edge/exp", "range-edge/pow"} {
 		r.Require(k, 100)
 	}
+}
+
+// Development-time dump of enclosures for the libmpdec cross-check
+// (tools/xcheck_encl.py); enabled by VERIF_XCHECK_ENCL=<file>.
+var (
+	enclDump *os.File
+	enclMu   sync.Mutex
+	enclN    int
+)
+
+func init() {
+	if p := os.Getenv("VERIF_XCHECK_ENCL"); p != "" {
+		enclDump, _ = os.Create(p)
+	}
+}
+
+func enclWrite(op string, x, y dec.D, T encl.Iv) {
+	// keep the dump cheap: skip astronomically large/small results
+	if e := T.Hi.MantExp(nil); e > 20000 || e < -20000 {
+		return
+	}
+	enclMu.Lock()
+	defer enclMu.Unlock()
+	if enclN >= 60000 {
+		return
+	}
+	enclN++
+	ys := ""
+	if y.C != nil {
+		ys = y.FullString()
+	}
+	fmt.Fprintf(enclDump, "%s\t%s\t%s\t%s\t%s\n", op, x.FullString(), ys, T.Lo.Text('e', 70), T.Hi.Text('e', 70))
 }
